@@ -119,6 +119,7 @@ func (e *env) opts(w *World, cnf *configs.Configurator) k8s.VerifC06Opts {
 
 // Render is what one run of a world on the real code produced.
 type Render struct {
+	Structs  []any // template data structs (only when asked for)
 	Files    []file
 	Attached []string
 	Errors   []string
@@ -153,7 +154,9 @@ func firstLine(s string) string {
 	return s
 }
 
-func (e *env) runWorld(w *World) (r Render) {
+func (e *env) runWorld(w *World) (r Render) { return e.runWorldS(w, false) }
+
+func (e *env) runWorldS(w *World, structs bool) (r Render) {
 	defer func() {
 		if p := recover(); p != nil {
 			r.Panic = fmt.Sprint(p)
@@ -225,6 +228,9 @@ func (e *env) runWorld(w *World) (r Render) {
 		}
 	}
 	r.Attached = v.Attached()
+	if structs {
+		r.Structs = cnf.VerifC06ConfigStructs()
+	}
 	sort.Strings(r.Attached)
 	sort.Strings(r.Errors)
 	r.Files = mgr.files
@@ -448,6 +454,7 @@ type Obs struct {
 	HFiles   []FileDiff `json:"hfiles,omitempty"`
 	Errors   []string   `json:"errors,omitempty"`
 	Warnings int        `json:"warnings"`
+	Classes  []ClassViol `json:"class_violations,omitempty"` // strings of the template data outside their declared class
 	Raw      bool       `json:"raw,omitempty"` // the value appears verbatim in the rendering
 	Go       int        `json:"go_verdict"` // 0 same events, 1 arity only, 2 structure differs
 	Panic    string     `json:"panic,omitempty"`
@@ -473,6 +480,7 @@ type Case struct {
 }
 
 type BaseRec struct {
+	Classes  []ClassViol `json:"class_violations,omitempty"`
 	Rec      string     `json:"rec"` // "base"
 	BaseID   int        `json:"base_id"`
 	Fixture  string     `json:"fixture"`
@@ -844,6 +852,8 @@ func baseRecord(id int, fx string, w *World, r *Render, e *env) BaseRec {
 			b.Invalid = append(b.Invalid, o.Kind+" "+o.Name+": "+why)
 		}
 	}
+	rs := e.runWorldS(w, true)
+	b.Classes = checkClasses(rs.Structs, classPool)
 	if r.Panic != "" {
 		b.Errors = append(b.Errors, "panic: "+r.Panic)
 	}
@@ -876,7 +886,7 @@ func runJob(e *env, fi int, fx Fixture, plus bool, rng *vh.Rng, thorough bool, b
 			nleaves++
 			if nleaves%nchunks != chunk {
 				if !thorough {
-					fieldInstances[l.Field]++ // instance numbering is global over the fixture, not per chunk
+					fieldInstances[normField(l.Field)]++ // instance numbering is global over the fixture, not per chunk
 				}
 				continue
 			}
@@ -893,19 +903,19 @@ func runJob(e *env, fi int, fx Fixture, plus bool, rng *vh.Rng, thorough bool, b
 			if !thorough {
 				// quick: the first instance of a field in a fixture gets the first 40 payloads (single bytes and the
 				// classic combinations) plus a seed-dependent fifth of the rest; further instances of the same field
-				// (the same Go type reached through another path index) get a seed-dependent sample of 7
+				// (the same Go type reached through another path index) get a seed-dependent sample of 5
 				lr := rng.Fork(uint64(fi*100000 + oi*1000 + nleaves))
-				fieldInstances[l.Field]++
-				if fieldInstances[l.Field] == 1 {
+				fieldInstances[normField(l.Field)]++
+				if fieldInstances[normField(l.Field)] == 1 {
 					payloads = append([]string(nil), corePayloads[:40]...)
 					for _, p := range corePayloads[40:] {
-						if lr.Chance(1, 5) {
+						if lr.Chance(1, 6) {
 							payloads = append(payloads, p)
 						}
 					}
 				} else {
 					payloads = nil
-					for k := 0; k < 7; k++ {
+					for k := 0; k < 5; k++ {
 						payloads = append(payloads, corePayloads[lr.Intn(len(corePayloads))])
 					}
 				}
@@ -1135,6 +1145,13 @@ func main() {
 		out.Emit(first.base)
 		for _, list := range [][]Case{errs, suspects, normal} {
 			for _, c := range list {
+				if c.Obs.Accepted && c.Obs.Attached && c.Obs.Go != 2 && c.Obs.Panic == "" {
+					// the tested glue on this accepted value: strings of the template data in their classes
+					if w2 := mutate(fixtures[j.fi].Build(j.plus), c.Obj, c.Path, stringOf(c.Value)); w2 != nil {
+						rs := envs[j.plus].runWorldS(w2, true)
+						c.Obs.Classes = checkClasses(rs.Structs, classPool)
+					}
+				}
 				c.ID, c.BaseID = id, baseID
 				id++
 				if st := sum.Fields[c.Field]; st != nil {
@@ -1156,7 +1173,54 @@ func main() {
 	for _, r := range regexRecords() {
 		out.Emit(r)
 	}
+	// a bounded, seed-dependent sample of the membership verdicts (all negative ones, up to 1200 positive ones)
+	var keys []string
+	for k := range classPool {
+		keys = append(keys, k)
+	}
+	sort.Strings(keys)
+	pr := rng.Fork(991)
+	type classRec struct {
+		Rec     string        `json:"rec"`
+		Samples []ClassSample `json:"samples"`
+	}
+	cr := classRec{Rec: "classes"}
+	for _, k := range keys {
+		smp := classPool[k]
+		if !smp.OK || len(keys) <= 1200 || pr.Intn(len(keys)) < 1200 {
+			cr.Samples = append(cr.Samples, smp)
+		}
+	}
+	out.Emit(cr)
 }
+
+var (
+	normRouteRe = regexp.MustCompile(`^VirtualServer(?:Route)?\.spec\.(?:sub)?routes\[\]\.(?:matches\[\]\.)?(?:splits\[\]\.)?(.*)$`)
+	normUpRe    = regexp.MustCompile(`^VirtualServer(?:Route)?\.spec\.upstreams\[\]\.(.*)$`)
+)
+
+// normField: routes / subroutes (and the actions nested in matches / splits) share one Go type and
+// one validator, likewise the upstreams of VirtualServer and VirtualServerRoute
+func normField(f string) string {
+	if m := normRouteRe.FindStringSubmatch(f); m != nil {
+		return "Route." + m[1]
+	}
+	if m := normUpRe.FindStringSubmatch(f); m != nil {
+		return "Upstream." + m[1]
+	}
+	return f
+}
+
+func stringOf(xs []int) string {
+	b := make([]byte, len(xs))
+	for i, x := range xs {
+		b[i] = byte(x)
+	}
+	return string(b)
+}
+
+// classPool collects (class, value, verdict of tab.InClass) for the Rocq cross-check (filled sequentially)
+var classPool = map[string]ClassSample{}
 
 func b2i(b bool) int {
 	if b {
